@@ -739,7 +739,7 @@ def run_sync(cfg):
             peer = K.Peer(K.client_ctx(ver), False, script)
             ctx = RawRecContext(K.server_ctx(ver, bool(cfg["ign"])), log)
         state["peer"] = peer
-        b.settimeout(5.0)
+        b.settimeout(120.0)
 
         def relay():
             try:
@@ -787,10 +787,13 @@ def run_sync(cfg):
 
     t = None
     ops.append([OP_WRAP, 0])
-    tmo = cfg.get("timeout", 5.0)
+    # live sockets: a generous budget (never reached unless something is really stuck, even on a loaded machine);
+    # scripted socket: the selector stub never waits, so make the time budget irrelevant: an exhausted script is the
+    # only "timeout" (budget <= retry_interval makes _retry give up at the first not-ready answer)
+    tmo = 120.0 if fake is None else 1.0e5
     try:
-        t = SSLStreamTransport(a, ctx, 1.0, server_side=not role, server_hostname="localhost" if role else None,
-                               standard_compatible=std, handshake_timeout=tmo, shutdown_timeout=tmo if fake else 1.0,
+        t = SSLStreamTransport(a, ctx, 1.0 if fake is None else 1.0e6, server_side=not role, server_hostname="localhost" if role else None,
+                               standard_compatible=std, handshake_timeout=tmo, shutdown_timeout=tmo if fake else 30.0,
                                selector_factory=sel_factory)
         res(0, 0)
     except BaseException as exc:
@@ -843,7 +846,7 @@ def run_sync(cfg):
         answers = list(log)
         a.close()
     if th is not None:
-        th.join(10)
+        th.join(180)
         if th.is_alive():
             state["err"] = "relay thread stuck (watchdog)"
     b.close()
@@ -899,7 +902,7 @@ def run_default_client(cfg):
     a = socket.create_connection(lst.getsockname())
     b, _ = lst.accept()
     lst.close()
-    b.settimeout(5.0)
+    b.settimeout(120.0)
     peer = K.Peer(K.server_ctx(ver), True, [("write", b"hello\n"), ("write", b"x" * 39 + b"\n"), ("unwrap",)])
     state = dict(delivered=0, err=None)
 
@@ -940,7 +943,7 @@ def run_default_client(cfg):
     try:
         try:
             client = TCPNetworkClient(a, StreamProtocol(StringLineSerializer()), ssl=True, server_hostname="localhost",
-                                      ssl_standard_compatible=std, ssl_handshake_timeout=5.0, ssl_shutdown_timeout=1.0)
+                                      ssl_standard_compatible=std, ssl_handshake_timeout=120.0, ssl_shutdown_timeout=30.0)
             first = [1, 0, 0]
         except BaseException as exc:
             cause = exc.__cause__ if isinstance(exc, ConnectionAbortedError) and isinstance(exc.__cause__, ssl.SSLError) else exc
@@ -952,7 +955,7 @@ def run_default_client(cfg):
         ended = 0
         for _ in range(8):
             try:
-                client.recv_packet(timeout=5.0)
+                client.recv_packet(timeout=120.0)
                 npackets += 1
                 continue
             except ConnectionAbortedError as exc:
@@ -975,7 +978,7 @@ def run_default_client(cfg):
             pass
     else:
         a.close()
-    th.join(10)
+    th.join(180)
     b.close()
     # transport-level calls reconstructed from the raw log: one recv per pumped read that ended
     ops = [[OP_WRAP, 0]]
@@ -1009,7 +1012,7 @@ def run_default_client_async(cfg):
     a = socket.create_connection(lst.getsockname())
     b, _ = lst.accept()
     lst.close()
-    b.settimeout(5.0)
+    b.settimeout(120.0)
     peer = K.Peer(K.server_ctx(ver), True, [("write", b"hello\n"), ("write", b"x" * 39 + b"\n"), ("unwrap",)])
     state = dict(delivered=0, err=None)
 
@@ -1087,11 +1090,11 @@ def run_default_client_async(cfg):
             pass
 
     try:
-        with detloop.running(allow_block=5.0) as loop:
+        with detloop.running(allow_block=120.0) as loop:
             loop.run_until_complete(main())
     except detloop.DeadlockError:
         state["err"] = "deadlock"
-    th.join(10)
+    th.join(180)
     for s_ in (a, b):
         try:
             s_.close()
@@ -1591,7 +1594,7 @@ def _fake_sync(thorough, rng):
                     else:
                         script = [(K.M_HANDSHAKE, K.O_OK, 0)] + body
                         plan = [(OP_CLOSE, 0, 0), (OP_CLOSE, 0, 0)]
-                    cfg = dict(kind=K_SYNC, std=std, fake=dict(ssl=script), plan=plan, timeout=0.05)
+                    cfg = dict(kind=K_SYNC, std=std, fake=dict(ssl=script), plan=plan)
                     inp, _out, _info = _build(cfg)
                     yield dict(input=inp, nontrivial=True,
                                tags=["blocking", "scripted-ssl", f"method{method}", f"terminal{term}",
